@@ -18,6 +18,7 @@ import HT.Model.Release
 import HT.Model.Confine
 import HT.Model.Relay
 import HT.Model.Handoff
+import HT.Model.Ldap
 /-!
 Line-protocol driver: one case per input line, `<model> <args…>`; one output line
 per case.  Core Lean only (so it links as an executable).
@@ -48,6 +49,7 @@ def dispatch (line : String) : String :=
   | "ipp" :: args => Ipp.driver args
   | "seg" :: "http" :: args => Relay.segHttpDriver args
   | "seg1" :: args => Relay.segOneDriver args
+  | "seg" :: "ldap" :: args => Ldap.driver args
   | "dgram" :: args => Relay.dgramDriver args
   | "seg" :: args => Proto.driver args
   | "iso" :: args => Iso.driver args
